@@ -44,6 +44,34 @@ def field_accesses(facts, adt_suffix, field):
     return out
 
 
+def fresh_receiver(body, term):
+    """Is the cell written by this SharedValue::set_value call part of a value CREATED in this function (a fresh local
+    built by a call/aggregate), i.e. not reachable from a parameter?  Writing one's own fresh object is construction."""
+    from ..mirutil import Tracer
+    t = Tracer(body)
+    o = t.origin(term['args'][0])
+    if o['o'] in ('call', 'rvalue') and o.get('l') is not None:
+        # value produced in this function; make sure it is not a reference handed out by a call on a parameter
+        if o['o'] == 'call':
+            rty = o['term']['dest'].get('ty', '')
+            if rty.startswith('&') or rty.startswith('*'):
+                return False
+        return True
+    return False
+
+
+def nonfresh_writer_sites(ctx):
+    """[(body, bb)] call sites of SharedValue::set_value whose receiver is not a fresh local of the caller."""
+    f, cg = ctx.facts, ctx.cg
+    out = []
+    for k, s in cg.callers_of(lambda n: n == 'basis::SharedValue::set_value'):
+        b = f.bodies[k]
+        t = b.blocks[s['bb']]['term']
+        if not fresh_receiver(b, t):
+            out.append((b, s['bb']))
+    return out
+
+
 def rule_writers(ctx, rule='WRITERS'):
     """Who may write a parameter cell (DESIGN §4 WRITERS)."""
     rep, f, cg = ctx.rep, ctx.facts, ctx.cg
@@ -61,6 +89,9 @@ def rule_writers(ctx, rule='WRITERS'):
     seen = set()
     for k, s in callers:
         b = f.bodies[k]
+        if fresh_receiver(b, b.blocks[s['bb']]['term']):
+            rep.ok(rule, 'fresh-cell-write:%s' % b.path, where(b, s['bb']), 'writes a cell of a value created in this function (construction)')
+            continue
         ident = (f.norm(b.impl_self_adt or ''), b.fn_name)
         okc = ident in allowed and b.impl_trait and f.norm(b.impl_trait).endswith('Basis') and not b.is_closure
         seen.add(ident)
@@ -115,5 +146,6 @@ def rule_writers(ctx, rule='WRITERS'):
 
 
 def writes_cell_reachable(ctx, roots):
-    """Call path from roots to SharedValue::set_value, or None."""
-    return ctx.cg.path_to(roots, lambda k: k == 'basis::SharedValue::set_value')
+    """Call path from roots to a function that writes a parameter cell it did not create itself, or None."""
+    writers = {b.key_in_facts for b, _ in nonfresh_writer_sites(ctx)}
+    return ctx.cg.path_to(roots, lambda k: k in writers)
